@@ -12,7 +12,12 @@ scope hypothesis orient_frozen (no cell with a row polarity has another orientat
  * in-scope states j < k of one run:  hpwl_k <= hpwl_j <= hpwl at construction       (c05_exposed_wirelength_never_increases)
  * out-of-scope states are only counted (known finding F8), with the number of those where Circuit::hpwl() rose.
 
-Library: run_compose(ctx, count, seed) -> dict.  Stand-alone: python3 -m checks.c05_compose [seed] [count]
+PAIRED MODEL (run_paired): the extracted paired model itself (coq/Extract_value.v, ocaml/driver_value.ml, tag PV: from_circuit +
+init_models, then DetailedValue.pbest for every leading best-move op of the run -- bestSwap, bestInsert, bestSwapUpdate, arguments
+decoded from the raw op ints exactly as the harness does but from the MODEL's structure) against the C++: decision, value() and the
+exported circuit (x y orientation of every cell) after construction and after every such op, EXACT.
+
+Library: run_compose(ctx, count, seed) -> dict, run_paired(ctx, count, seed) -> dict.  Stand-alone: python3 -m checks.c05_compose [seed] [count]
 (exit 1 when an in-scope state violates one of the two statements)."""
 import sys
 from tools import common
@@ -114,6 +119,60 @@ def run_compose(ctx, count, seed, modes=(0, 16)):
     return res
 
 
+def run_paired(ctx, count, seed, modes=(0, 16)):
+    dres = do.run_dopt(ctx if ctx is not None else _Ctx(), count, seed, modes)
+    driver = common.build_driver("value")
+    lines, impl = dres["lines"], dres["impl"]
+    res = {"runs": 0, "best_ops": 0, "accepted": 0, "row_changing": 0, "mismatch": [], "driver_fail": []}
+    pinp, pmap = [], []
+    for i, (l, out) in enumerate(zip(lines, impl)):
+        segs = [x.strip() for x in out.split(" / ")]
+        if not segs or not segs[0].startswith("INIT"):
+            continue
+        ctoks, ntoks = do.split_do(l)
+        t = l.split()[1:]
+        ops = t[len(ctoks) + len(ntoks):]
+        pl0 = [int(x) for x in segs[0][4:].split(";")[1].split()]
+        pinp.append("PV " + " ".join(lc.with_placement(ctoks, pl0)) + " " + " ".join(do.nets_for_hp(ntoks)) + " " + " ".join(ops))
+        pmap.append((i, [x for x in segs if not x.startswith("L ")]))
+    pout, _, _ = common.run_both([driver], None, pinp, chunk=300, timeout=600)
+    for (i, segs), o in zip(pmap, pout):
+        msegs = [x.strip() for x in o.split(" / ")]
+        if not msegs or not msegs[0].startswith("INIT"):
+            res["driver_fail"].append((lines[i], o[:200], "the paired model did not build a state for a circuit the C++ accepted"))
+            continue
+        res["runs"] += 1
+        norm = lambda x: " ".join(x.split())
+        if norm(msegs[0]) != norm(segs[0]):
+            res["mismatch"].append((lines[i], segs[0][:300], msegs[0][:300], "state after construction (value, exported circuit)"))
+            continue
+        prev = segs[0].split(";")[1].split()
+        for k, (a, m) in enumerate(zip(segs[1:], msegs[1:])):
+            if m == "STOP":
+                break
+            if a == "SKIP" or m == "SKIP":
+                if a != m:
+                    res["mismatch"].append((lines[i], a[:300], m[:300], "op %d" % k))
+                    break
+                continue
+            if not a.startswith("B "):
+                res["mismatch"].append((lines[i], a[:300], m[:300], "op %d: the model ran a best-move op where the C++ did something else" % k))
+                break
+            pa = [x.strip() for x in a.split(";")]; pm = [x.strip() for x in m.split(";")]
+            res["best_ops"] += 1
+            got = (pa[0].split()[1], pa[2], norm(pa[3])); want = (pm[0].split()[1], pm[1], norm(pm[2]))
+            if got != want:
+                res["mismatch"].append((lines[i], "found %s value %s placement %s" % got, "found %s value %s placement %s" % want, "best-move op %d" % k))
+                break
+            cur = pa[3].split()
+            if pa[0].split()[1] == "1":
+                res["accepted"] += 1
+                if any(cur[3 * j + 1] != prev[3 * j + 1] for j in range(len(cur) // 3)):
+                    res["row_changing"] += 1
+            prev = cur
+    return res
+
+
 def summary(res):
     return {k: (len(v) if isinstance(v, list) else v) for k, v in res.items()}
 
@@ -126,4 +185,8 @@ if __name__ == "__main__":
     bad = r["value_mismatch"] + r["mono_fail"] + r["driver_fail"]
     for l, what, why in bad[:3]:
         print("FAIL:", why, "|", what, "|", l[:300])
-    sys.exit(1 if bad else 0)
+    q = run_paired(None, count, seed + 40)
+    print("paired model:", summary(q))
+    for x in (q["mismatch"] + q["driver_fail"])[:3]:
+        print("FAIL (paired model differs from the C++):", " | ".join(str(y)[:400] for y in x[1:]), "|", x[0][:300])
+    sys.exit(1 if bad or q["mismatch"] or q["driver_fail"] else 0)
